@@ -217,6 +217,38 @@ theorem manual_code_invalid_checksum_rejected (code ds : List Nat) (hs : ManualC
     (hv : Verhoeff.validate ds = false) : ManualCode.parse code = .error .invalidData :=
   ManualCode.parse_rejects_bad_check code ds hs hv
 
+/-- **a manual pairing code with an out-of-range field is refused with `InvalidData`, also when its check digit
+is right**: first digit 8 / 9, vid/pid-present bit not matching the length, digits 2..6 > 65535, digits 7..10 >
+8191, vendor or product id > 65535 (`ManualCode.RangesOk`, on the digit string after the separators are stripped) -/
+theorem manual_code_out_of_range_rejected (code ds : List Nat) (hs : ManualCode.strip code [] = .ok ds)
+    (hbad : ¬ ManualCode.RangesOk ds) : ManualCode.parse code = .error .invalidData :=
+  ManualCode.parse_rejects_out_of_range code ds hs hbad
+
+/-- and one with another number of digits than 11 / 21 -/
+theorem manual_code_bad_length_rejected (code ds : List Nat) (hs : ManualCode.strip code [] = .ok ds)
+    (h : ds.length ≠ 11 ∧ ds.length ≠ 21) : ManualCode.parse code = .error .invalidData :=
+  ManualCode.parse_rejects_length code ds hs h
+
+/-- non-vacuity, one code per class, each with a *valid* Verhoeff digit (so only the range test refuses it):
+`80000000001` (first digit 8), `40000000011` (11 digits with the vid/pid flag), `06553600008` (digits 2..6 =
+65536), `00000081926` (digits 7..10 = 8192), `400000000165536000013` (vendor id 65536),
+`400000000100001655363` (product id 65536) -/
+example : [[56, 48, 48, 48, 48, 48, 48, 48, 48, 48, 49], [52, 48, 48, 48, 48, 48, 48, 48, 48, 49, 49],
+      [48, 54, 53, 53, 51, 54, 48, 48, 48, 48, 56], [48, 48, 48, 48, 48, 48, 56, 49, 57, 50, 54],
+      [52, 48, 48, 48, 48, 48, 48, 48, 48, 49, 54, 53, 53, 51, 54, 48, 48, 48, 48, 49, 51],
+      [52, 48, 48, 48, 48, 48, 48, 48, 48, 49, 48, 48, 48, 48, 49, 54, 53, 53, 51, 54, 51]].all
+    (fun ds => (match ManualCode.strip ds [] with | .ok r => r == ds | .error _ => false) &&
+      Verhoeff.validate ds && !decide (ManualCode.RangesOk ds)) = true := by decide
+
+/-- the encoder outside the legal field values (not demanded by the property — `compute_pairing_code` is not a
+decoder and discriminators ≥ 2^12 / passcodes ≥ 2^27 are not legal field values — stated to pin down where the
+`write_unwrap!` panic of the model, and of the code, begins): no panic up to discriminator 10239 and passcode
+163839999; `encode 10240 1` and `encode 0 163840000` answer `panic` (example in Lemmas/CodecManual.lean) -/
+theorem manual_code_encoder_no_panic_below (disc pw : Nat) (hd : disc < 10240) (hp : pw < 163840000) :
+    ∃ code, ManualCode.encode disc pw = .ok code ∧ code.length = 11 :=
+  ManualCode.encode_ok_of_bounds disc pw hd hp
+example : ManualCode.encode 10240 1 = .error .panic ∧ ManualCode.encode 0 163840000 = .error .panic := ⟨rfl, rfl⟩
+
 /-! ## (3) plain message header -/
 
 theorem plain_hdr_decode_encode (h h0 : PlainHdr.Hdr) (rest : List Nat) (hwf : PlainHdr.WF h) :
@@ -267,10 +299,13 @@ theorem status_report_unknown_general_code_rejected (g : Nat) (rest : List Nat)
 
 /-! ## (6) QR onboarding payload: 3+16+16+2+8+12+27+4 bits, base-38 body, optional TLV tail -/
 
-/-- `parse (as_str q) = q`, including any optional-TLV bytes -/
-theorem qr_parse_encode (q : QrPayload.Qr) (hwf : QrPayload.WF q) (cap : Nat) (hcap : 11 + q.tlv.length ≤ cap) :
+/-- `parse (as_str q) = q`, including any optional-TLV bytes. `q.version = 0` is the only value the Rust type can
+hold (`QrPayload::new` sets it, the field is private); since the fix `C17-qr-version-accepted` the parser refuses
+every other version. -/
+theorem qr_parse_encode (q : QrPayload.Qr) (hwf : QrPayload.WF q) (hver : q.version = 0) (cap : Nat)
+    (hcap : 11 + q.tlv.length ≤ cap) :
     ∃ cs, QrPayload.encode q = .ok cs ∧ QrPayload.parse cs cap = .ok q :=
-  QrPayload.parse_encode q hwf cap hcap
+  QrPayload.parse_encode q hwf hver cap hcap
 def qrSample : QrPayload.Qr :=
   { version := 0, vid := 9050, pid := 65279, flow := 0, rendezvous := 2, disc := 2976
     pass := 34567890, tlv := [0x15, 0x18] }
@@ -281,19 +316,41 @@ example : QrPayload.WF qrSample := by
 theorem qr_parse_total (s : List Nat) (cap : Nat) : NoPanic (QrPayload.parse s cap) :=
   QrPayload.parse_np s cap
 
-/-- out-of-range / malformed QR texts are refused: no `MT:` prefix, a character outside the base-38
-alphabet, an impossible length class, fewer than 11 decoded bytes, the undefined commissioning flow 3 -/
+/-- out-of-range / malformed QR texts are refused, each with its error class (never `panic`): no `MT:`
+prefix → `InvalidData`; a character outside the base-38 alphabet or an impossible length class → `InvalidData`
+(`BufferTooSmall` when the bytes decoded before the bad chunk already overflow the caller's scratch buffer);
+fewer than 11 decoded bytes → `InvalidData` (`BufferTooSmall` only for a buffer that is smaller still); a version
+field other than 0 → `InvalidData`; the undefined commissioning flow 3 → `InvalidData` -/
 theorem qr_out_of_range_rejected :
     (∀ s cap, QrPayload.stripPrefix s = none → QrPayload.parse s cap = .error .invalidData) ∧
     (∀ body cap, ((∃ c ∈ body, c ∉ Base38.alphabet) ∨ body.length % 5 = 1 ∨ body.length % 5 = 3) →
-      ∃ e, QrPayload.parse (QrPayload.PREFIX ++ body) cap = .error e) ∧
+      QrPayload.parse (QrPayload.PREFIX ++ body) cap = .error .invalidData ∨
+      QrPayload.parse (QrPayload.PREFIX ++ body) cap = .error .bufferTooSmall) ∧
     (∀ body bytes cap, Base38.decode body = (bytes, none) → bytes.length < 11 →
-      ∃ e, QrPayload.parse (QrPayload.PREFIX ++ body) cap = .error e) ∧
+      QrPayload.parse (QrPayload.PREFIX ++ body) cap = .error .invalidData ∨
+      QrPayload.parse (QrPayload.PREFIX ++ body) cap = .error .bufferTooSmall) ∧
+    (∀ body bytes cap, Base38.decode body = (bytes, none) → (∀ b ∈ bytes, b < 256) → 11 ≤ bytes.length →
+      bytes.length ≤ cap → fromLe bytes % 2 ^ 3 ≠ 0 →
+      QrPayload.parse (QrPayload.PREFIX ++ body) cap = .error .invalidData) ∧
     (∀ body bytes cap, Base38.decode body = (bytes, none) → (∀ b ∈ bytes, b < 256) → 11 ≤ bytes.length →
       bytes.length ≤ cap → fromLe bytes / 2 ^ 35 % 2 ^ 2 = 3 →
       QrPayload.parse (QrPayload.PREFIX ++ body) cap = .error .invalidData) :=
   ⟨QrPayload.parse_rejects_prefix, QrPayload.parse_rejects_bad_base38, QrPayload.parse_rejects_short,
-   QrPayload.parse_rejects_flow⟩
+   QrPayload.parse_rejects_version, QrPayload.parse_rejects_flow⟩
+/-- `MT:10L9042C00KA0648G00` = the payload of `MT:Y.K9042C00KA0648G00` (vendor 0xFFF1, product 0x8000,
+discriminator 3840, passcode 20202021) with version 5: refused (accepted, with `version() = 5`, before the fix) -/
+example : QrPayload.parse [77, 84, 58, 49, 48, 76, 57, 48, 52, 50, 67, 48, 48, 75, 65, 48, 54, 52, 56, 71, 48, 48] 64
+    = .error .invalidData := rfl
+example : (QrPayload.parse [77, 84, 58, 89, 46, 75, 57, 48, 52, 50, 67, 48, 48, 75, 65, 48, 54, 52, 56, 71, 48, 48] 64).toOption.map
+    (fun q => (q.version, q.vid, q.pid, q.disc, q.pass)) = some (0, 65521, 32768, 3840, 20202021) := rfl
+
+/-- soundness of acceptance: whatever `QrPayload::parse` accepts has version 0 and a defined commissioning flow.
+(All other fixed fields fill their bit width, so they have no out-of-range value at codec level; the passcode's
+*legal* values — 1..99999998 without the trivial ones — and the padding bits are deliberately not checked by
+`parse`, see docs/C17.md.) -/
+theorem qr_accepts_only_version0_defined_flow (s : List Nat) (cap : Nat) (q : QrPayload.Qr)
+    (h : QrPayload.parse s cap = .ok q) : q.version = 0 ∧ q.flow ≤ 2 :=
+  QrPayload.parse_ok_version_flow s cap q h
 
 /-! ## (7) BTP packet header and handshake -/
 
@@ -336,6 +393,35 @@ example : CheckIn.toyScheme.Sound := CheckIn.toyScheme_sound
 theorem checkin_parse_total (S : CheckIn.Scheme) (hS : S.Sound) (key payload : List Nat) :
     NoPanic (CheckIn.parse S key payload) :=
   CheckIn.parse_np S hS key payload
+
+/-- a check-in payload shorter than nonce + counter + tag is refused -/
+theorem checkin_short_rejected (S : CheckIn.Scheme) (key payload : List Nat)
+    (h : payload.length < CheckIn.MIN_PAYLOAD_LEN) : CheckIn.parse S key payload = .error .invalid := by
+  simp [CheckIn.parse, h]
+
+/-- a check-in payload whose AEAD tag does not verify is refused (`InvalidData`) -/
+theorem checkin_bad_tag_rejected (S : CheckIn.Scheme) (key payload : List Nat)
+    (hl : ¬ payload.length < CheckIn.MIN_PAYLOAD_LEN)
+    (hdec : S.dec key (payload.take CheckIn.NONCE_LEN) (payload.drop CheckIn.NONCE_LEN) = none) :
+    CheckIn.parse S key payload = .error .invalidData :=
+  CheckIn.parse_rejects_bad_tag S key payload hl hdec
+
+/-- a check-in payload that decrypts but whose nonce is not the one derived from the authenticated counter is
+refused (`Invalid`) -/
+theorem checkin_wrong_nonce_rejected (S : CheckIn.Scheme) (key payload pt : List Nat)
+    (hl : ¬ payload.length < CheckIn.MIN_PAYLOAD_LEN)
+    (hdec : S.dec key (payload.take CheckIn.NONCE_LEN) (payload.drop CheckIn.NONCE_LEN) = some pt)
+    (h4 : ¬ pt.length < CheckIn.COUNTER_LEN)
+    (hn : CheckIn.nonceOf S key (fromLe (pt.take CheckIn.COUNTER_LEN)) ≠ payload.take CheckIn.NONCE_LEN) :
+    CheckIn.parse S key payload = .error .invalid :=
+  CheckIn.parse_rejects_wrong_nonce S key payload pt hl hdec h4 hn
+
+/-- non-vacuity on the toy scheme: a 33-byte payload with a broken tag; and one that decrypts to counter 1 under
+the nonce `09…09`, which is not the nonce of counter 1 -/
+example : CheckIn.parse CheckIn.toyScheme [] (List.replicate 33 0) = .error .invalidData :=
+  checkin_bad_tag_rejected CheckIn.toyScheme [] _ (by decide) (by decide)
+example : CheckIn.parse CheckIn.toyScheme [] (List.replicate 13 9 ++ [1, 0, 0, 0] ++ List.replicate 16 7) = .error .invalid :=
+  checkin_wrong_nonce_rejected CheckIn.toyScheme [] _ [1, 0, 0, 0] (by decide) (by decide) (by decide) (by decide)
 
 /-! ## (9) BDX messages -/
 
